@@ -6,6 +6,9 @@ import shutil
 import sys
 
 
+_SHARED = {}
+
+
 def one(cfg, out, tag):
     import numpy as np
     from nessai.flowsampler import FlowSampler
@@ -15,7 +18,11 @@ def one(cfg, out, tag):
     quiet_logging()
     reset_globals()
     v = cfg["variant"]
-    model = zoo.make(cfg.get("model", "Ex2"))
+    if v.get("same_model"):
+        # the very same model object for both runs of the process (likelihood counters are cumulative: the digest uses nessai's own counts)
+        model = _SHARED.setdefault("model", zoo.make(cfg.get("model", "Ex2")))
+    else:
+        model = zoo.make(cfg.get("model", "Ex2"))
     model.delay_us = v.get("delay_us", 0)
     ins = cfg["sampler"] == "ins"
     kw = (ins_kwargs if ins else std_kwargs)(cfg["kwargs"])
@@ -34,9 +41,12 @@ def one(cfg, out, tag):
             extra[k] = v[k]
     d = os.path.join(out, tag)
     shutil.rmtree(d, ignore_errors=True)
+    evals_before = int(getattr(model, "likelihood_evaluations", 0) or 0)   # the counter belongs to the model object: cumulative when the object is reused
     fs = FlowSampler(model, output=d, resume=False, importance_nested_sampler=ins, signal_handling=False, **extra, **kw)
     fs.run(plot=False, save=False)
     digest, evals = result_digest(fs, ins)
+    if v.get("same_model"):
+        evals = evals - evals_before
     try:
         fs.ns.close_pool()
         if pool is not None:
